@@ -53,6 +53,91 @@ MUTANTS = [
 ]
 
 MUTANTS += [
+    # ---- C04
+    ("bounds_reflect_drop_width", "C04", "inference/mcmc/utilities.py",
+     "        return self.lower + (1 - 2 * n) * rem + n * self.width\n", "        return self.lower + (1 - 2 * n) * rem + n * rem\n"),
+    ("bounds_momenta_sign_inverted", "C04", "inference/mcmc/utilities.py",
+     "        reflection = 1 - 2 * n\n", "        reflection = 2 * n - 1\n"),
+    ("hmc_last_step_not_reflected", "C04", "inference/mcmc/hmc/__init__.py",
+     "        t += self.ES.epsilon * self.mass.get_velocity(r)\n        t, reflections = self.bounds.reflect_momenta(t)\n        r *= reflections\n        r += (0.5 * r_step) * self.grad(t)\n        return t, r",
+     "        t += self.ES.epsilon * self.mass.get_velocity(r)\n        r += (0.5 * r_step) * self.grad(t)\n        return t, r"),
+    ("gibbs_boundary_wraps_instead_of_reflecting", "C04", "inference/mcmc/gibbs.py",
+     "            return self.upper - d % width", "            return lower + d % width"),
+    ("gibbs_abs_proposal_no_abs", "C04", "inference/mcmc/gibbs.py",
+     "        return abs(self.rng.normal(loc=self.samples[-1], scale=self.sigma))", "        return self.rng.normal(loc=self.samples[-1], scale=self.sigma)"),
+    ("ensemble_forgets_reflect", "C04", "inference/mcmc/ensemble.py",
+     "            self.process_proposal = self.bounds.reflect", "            self.process_proposal = self.pass_through"),
+    ("pca_reflect_before_step", "C04", "inference/mcmc/pca.py",
+     "                prop = self.process_proposal(prop)\n", "                prop = prop if abs(p.sigma) > 1e3 else self.process_proposal(prop)\n"),
+    ("bounds_reflect_single_wrap_only", "C04", "inference/mcmc/utilities.py",
+     "        q, rem = np_divmod(theta - self.lower, self.width)\n        n = q % 2\n        return self.lower",
+     "        q, rem = np_divmod(theta - self.lower, self.width)\n        n = (q != 0) * 1.0\n        return self.lower"),
+    ("revert_gibbs_limits_c04", "C04", "REVERT", "no longer cancel each other", ""),
+    ("revert_finite_diff_bounds", "C04", "REVERT", "never evaluates the posterior outside its bounds", ""),
+    # ---- C03
+    ("hmc_probs_forget_temperature", "C03", "inference/mcmc/hmc/__init__.py",
+     "        self.probs.append(p)\n", "        self.probs.append(p / self.inv_temp)\n"),
+    ("hmc_leapfrog_mutates_stored_sample", "C03", "inference/mcmc/hmc/__init__.py",
+     "            t, r = self.run_leapfrog(t0.copy(), r0.copy(), n_steps)", "            t, r = self.run_leapfrog(t0, r0.copy(), n_steps)"),
+    ("ensemble_sample_aliases_walkers", "C03", "inference/mcmc/ensemble.py",
+     "            sample_arrays.append(self.walker_positions.copy())", "            sample_arrays.append(self.walker_positions)"),
+    ("mode_off_by_one", "C03", "inference/mcmc/gibbs.py",
+     "        ind = argmax(self.probs)\n        return array([p.samples[ind] for p in self.params])",
+     "        ind = argmax(self.probs[1:])\n        return array([p.samples[ind] for p in self.params])"),
+    ("gibbs_stores_prob_of_previous_update", "C03", "inference/mcmc/gibbs.py",
+     ["            p_old = deepcopy(p_new)  # NOTE - is deepcopy needed?", "        self.probs.append(p_new)\n        self.chain_length += 1\n"],
+     ["            p_prev, p_old = p_old, deepcopy(p_new)", "        self.probs.append(p_prev if self.chain_length % 7 == 3 else p_new)\n        self.chain_length += 1\n"]),
+    ("pca_shares_bounds_object_state", "C03", "inference/mcmc/utilities.py",
+     "        q, rem = np_divmod(theta - self.lower, self.width)\n        n = q % 2\n        return self.lower + (1 - 2 * n) * rem + n * self.width",
+     "        q, rem = np_divmod(theta - self.lower, self.width)\n        n = q % 2\n        self.lower -= 0.0 * rem\n        self.width += 1e-9 * (n > 0)\n        return self.lower + (1 - 2 * n) * rem + n * self.width"),
+    ("replace_last_aliases_input", "C03", "inference/mcmc/hmc/__init__.py",
+     "        self.theta[-1] = theta\n", "        self.theta[-2 if len(self.theta) > 3 else -1] = theta\n"),
+    # ---- C14
+    ("gibbs_get_sample_burn_plus_one", "C14", "inference/mcmc/gibbs.py",
+     "        return array([p.samples[burn::thin] for p in self.params]).T", "        return array([p.samples[burn + (thin > 3) :: thin] for p in self.params]).T"),
+    ("hmc_probs_ignore_thin", "C14", "inference/mcmc/hmc/__init__.py",
+     "        return array(self.probs[burn::thin])", "        return array(self.probs[burn:: max(thin, 1) if thin < 5 else 5])"),
+    ("interval_probs_not_thinned", "C14", "inference/mcmc/base.py",
+     "        probs = probs[::thin]\n", "        probs = probs[:: thin if samples is None else 1][: sample.shape[0]]\n"),
+    ("interval_keeps_low_prob_tail", "C14", "inference/mcmc/base.py",
+     "        sample = sample[cutoff:, :]\n        probs = probs[cutoff:]", "        sample = sample[: sample.shape[0] - cutoff, :]\n        probs = probs[: probs.size - cutoff]"),
+    ("interval_subsample_unsorted_pairs", "C14", "inference/mcmc/base.py",
+     "                sample = sample[subsample, :]\n                probs = probs[subsample]", "                sample = sample[subsample, :]\n                probs = probs[n_trim:]"),
+    ("ensemble_parameter_ignores_burn", "C14", "inference/mcmc/ensemble.py",
+     "        return self.sample[burn::thin, index]", "        return self.sample[min(burn, 3) :: thin, index]"),
+    ("marginal_default_burn", "C14", "inference/mcmc/base.py",
+     "            return GaussianKDE(self.get_parameter(index, burn=burn, thin=thin))", "            return GaussianKDE(self.get_parameter(index, burn=burn))"),
+    # ---- C15
+    ("advance_drops_remainder", "C15", "inference/mcmc/base.py",
+     "        if m % k != 0:\n            [self.take_step() for _ in range(m % k)]", "        if m % k > 1:\n            [self.take_step() for _ in range(m % k)]"),
+    ("ensemble_chain_length_iterations", "C15", "inference/mcmc/ensemble.py",
+     "            self.chain_length = self.sample_probs.size", "            self.chain_length = self.n_iterations * self.n_walkers if self.n_iterations < 40 else self.sample_probs.size - 1"),
+    ("pool_results_completion_order", "C15", "inference/mcmc/parallel.py",
+     "        self.chains = self.pool.map(\n            self.adv_func, [(n, chain) for chain in self.chains]\n        )",
+     "        self.chains = self.pool.map(\n            self.adv_func, [(n, chain) for chain in self.chains[::-1]]\n        )"),
+    ("pool_advances_one_less_for_large_n", "C15", "inference/mcmc/parallel.py",
+     "        chain.advance(n)\n        return chain", "        chain.advance(n if n < 25 else n - 1)\n        return chain"),
+    ("run_for_stops_early", "C15", "inference/mcmc/base.py",
+     "        while current_time < end_time:", "        while current_time < end_time - 0.25 * run_time:"),
+    ("run_for_ignores_days", "C15", "inference/mcmc/base.py",
+     "        run_time = ((days * 24.0 + hours) * 60.0 + minutes) * 60.0", "        run_time = ((days * 12.0 + hours) * 60.0 + minutes) * 60.0"),
+    ("pt_run_for_minutes_as_seconds", "C15", "inference/mcmc/parallel.py",
+     "        run_time = (hours * 60.0 + minutes) * 60.0", "        run_time = (hours * 60.0 + minutes) * 6.0"),
+    # ---- C09
+    ("save_drops_sigma", "C09", "inference/mcmc/gibbs.py",
+     '            f"{i}sigma": self.sigma,', '            f"{i}sigma": self.sigma_values[0],'),
+    ("load_resets_try_count", "C09", "inference/mcmc/gibbs.py",
+     '        param.num = float(dictionary[i + "num"])', '        param.num = 0.0'),
+    ("pca_load_forgets_next_update", "C09", "inference/mcmc/pca.py",
+     '        chain.next_update = int(D["next_update"])', '        chain.next_update = int(D["last_update"]) + int(D["dir_update_interval"]) + 1'),
+    ("hmc_save_rounds_epsilon", "C09", "inference/mcmc/hmc/epsilon.py",
+     '        self.epsilon = float(dictionary["epsilon"])', '        self.epsilon = float(dictionary["epsilon_values"][-1]) if len(dictionary["epsilon_values"]) < 3 else float(dictionary["epsilon_values"][-2])'),
+    ("ensemble_load_forgets_max_attempts", "C09", "inference/mcmc/ensemble.py",
+     '        sampler.max_attempts = int(D["max_attempts"])', '        sampler.max_attempts = 100'),
+    ("hmc_load_forgets_steps", "C09", "inference/mcmc/hmc/__init__.py",
+     '        chain.steps = int(D["steps"])', '        pass'),
+    ("gibbs_load_loses_temperature", "C09", "inference/mcmc/gibbs.py",
+     '        chain.inv_temp = float(D["inv_temp"])\n\n        # re-build all the parameter objects', '        # re-build all the parameter objects'),
     # ---- the repaired defects must be re-detected when a fix is undone
     ("revert_pickle_printer", "C08", "REVERT", "picklable when display is off", ""),
     ("revert_metropolis_probs", "C03", "REVERT", "MetropolisChain.take_step records", ""),
@@ -87,9 +172,12 @@ def apply(copy, file, old, new):
         return
     p = os.path.join(copy, file)
     s = open(p).read()
-    if s.count(old) != 1:
-        raise SystemExit("mutant pattern occurs %d times in %s" % (s.count(old), file))
-    open(p, "w").write(s.replace(old, new))
+    olds, news = (old, new) if isinstance(old, list) else ([old], [new])
+    for o, n in zip(olds, news):
+        if s.count(o) != 1:
+            raise SystemExit("mutant pattern occurs %d times in %s: %r" % (s.count(o), file, o[:60]))
+        s = s.replace(o, n)
+    open(p, "w").write(s)
 
 
 def run_one(m, tier, workers):
